@@ -59,7 +59,7 @@ pub fn run_job_main(path: &str) -> i32 {
             for l in &out.lines {
                 println!("{}", l);
             }
-            println!("##RESULT {:?}", out.result.is_ok());
+            println!("##RESULT {:?}", out.result);
             0
         }
         Err(_) => 3,
@@ -170,7 +170,8 @@ impl Property for C18 {
         let mut q = Select::simple(Vec::new(), "t");
         let lines;
         let mut twice = false;
-        let mode = if t.chance(1, 250) { 3 } else if t.chance(1, 1000) { 4 } else { t.weighted(&[3, 4, 3]) };
+        let mut force_processes = false;
+        let mode = if t.chance(1, 250) { 3 } else if t.chance(1, 1000) { 4 } else if t.chance(1, 1000) { 5 } else { t.weighted(&[3, 4, 3]) };
         match mode {
             3 => {
                 // one group with well over ten thousand spread-out values (sampling / approximate aggregates would show here)
@@ -201,6 +202,32 @@ impl Property for C18 {
                 q.distinct = true;
                 q.items.push((E::col("c0"), None));
             }
+            5 => {
+                // a joined file of tens of thousands of lines over three keys: every key has partners all over the file
+                // (a loader that works in blocks or in parallel must still keep the partners in joined-file order)
+                let rcols = 3 + t.draw(3);
+                let right = wide_table(t, "u", "d", rcols);
+                let m = 17_000 + t.draw(24_000);
+                joined_lines = (0..m as i64)
+                    .map(|i| {
+                        let values: Vec<V> = right.cols.iter().enumerate().map(|(c, _)| if c == 0 { V::Int(i % 3) } else if c == 1 { V::Text(format!("r{}", i)) } else { V::Null }).collect();
+                        right.line(&values, t)
+                    })
+                    .collect();
+                lines = (0..3i64)
+                    .map(|k| {
+                        let values: Vec<V> = table.cols.iter().enumerate().map(|(c, _)| if c == 0 { V::Int(k) } else { V::Null }).collect();
+                        table.line(&values, t)
+                    })
+                    .collect();
+                let rkey = right.cols[0].0.clone();
+                q.items.push((E::col("u.d1"), Some("partner".into())));
+                q.join = Some(Join { outer: false, table: "u".into(), file: "JOINED".into(), left: ("t".into(), "c0".into()), right: ("u".into(), rkey) });
+                if t.chance(1, 2) {
+                    q.limit = Some(20 + t.draw(200) as u64);
+                }
+                joined = Some(right);
+            }
             0 => {
                 // `*` over many columns
                 let n = 6 + t.draw(10);
@@ -213,6 +240,10 @@ impl Property for C18 {
                     q.filter = Some(E::Is { not: true, l: Box::new(E::col("c0")), r: Box::new(E::Null) });
                 } else if t.chance(1, 2) {
                     q.filter = Some(in_list_filter(t));
+                } else if t.chance(1, 4) {
+                    // a statement that ends with an error which names a function and its argument types (the message is output, too)
+                    q.filter = Some(E::call(*t.pick(&["regex_matches", "regexp_matches", "array_cat", "length", "upper"]), vec![E::col("c0"), E::Str("a".into())]));
+                    force_processes = true;
                 }
             }
             1 => {
@@ -285,7 +316,7 @@ impl Property for C18 {
             let at = t.draw(extra.len() + 1);
             extra.insert(at, wide_table(t, name, "e", n));
         }
-        Case { table, joined, extra, query: q, lines, joined_lines, processes: t.chance(1, 15), twice }
+        Case { table, joined, extra, query: q, lines, joined_lines, processes: t.chance(1, 15) || force_processes, twice }
     }
 
     fn check(&self, case: &Case, ctx: &Ctx, obs: &mut Obs) -> Result<(), Failure> {
@@ -370,7 +401,7 @@ impl Property for C18 {
                 obs.inner += 1;
                 let variant = rep % 4;
                 let again = run(&defs_variant(variant), json)?;
-                if again.lines != base.lines || again.result.is_err() != base.result.is_err() {
+                if again.lines != base.lines || again.result != base.result {
                     let what = if variant == 0 { "repetition" } else { "extra-tables" };
                     let diff = base.lines.iter().zip(again.lines.iter()).position(|(a, b)| a != b).unwrap_or(base.lines.len().min(again.lines.len()));
                     return Err(Failure::new(
@@ -400,6 +431,13 @@ impl Property for C18 {
                         std::process::exit(2);
                     }
                     // the text format prints values with embedded newlines only for TEXT we never generate
+                    // (the message of an error is output too)
+                    if trailer != format!("##RESULT {:?}", base.result) {
+                        return Err(Failure::new(
+                            format!("{}: fresh-process: error text", kind),
+                            format!("a fresh process ends differently:\n    in-process: {:?}\n    child:      {}\n  {}", base.result, trailer, context),
+                        ));
+                    }
                     if lines != base.lines {
                         let diff = base.lines.iter().zip(lines.iter()).position(|(a, b)| a != b).unwrap_or(0);
                         return Err(Failure::new(
